@@ -462,6 +462,21 @@ example : Pending (run Cfg.cur demo (demoOps.take 20)) 1 0 ∧
   refine ⟨⟨demoW1, ⟨by decide, rfl, rfl, by decide, by decide, by decide⟩, rfl, rfl, by decide⟩,
     by decide, by decide, by decide⟩
 
+/-- **... in particular under a dispatcher that takes one message per cycle.** If the port holds at
+    most its capacity (≥ 1) and wavefront `i` owes the message of group `g` with `k` entries ahead of it
+    in `internalExecuting`, then after `k + 1` cycles "the dispatcher takes one message, the scheduler
+    evaluates" the message is in the log — no hypothesis on the schedule is left. -/
+theorem wg_completion_fair_dispatcher (c : Cfg) (hA : c.fixA = true) (hB : c.fixB = true) (hcap : 0 < c.aceCap)
+    (s : State) (ops : List Op) (h0 : Init s) (hout : s.out.length ≤ c.aceCap)
+    (hl : legalRun c s ops = true) (i g : Nat) (hp : Pending (run c s ops) i g) :
+    g ∈ (run c (run c s ops) (fairCycles (ahead i (run c s ops).exec + 1))).sent := by
+  obtain ⟨a, b, d⟩ := fairCycles_facts c hcap i (ahead i (run c s ops).exec + 1) (run c s ops)
+    (run_out_le c ops s hout)
+  exact wg_completion_eventually c hA hB s ops h0 hl i g hp _ a b (by omega)
+
+example : (run Cfg.cur (run Cfg.cur demo (demoOps.take 20))
+    (fairCycles (ahead 1 (run Cfg.cur demo (demoOps.take 20)).exec + 1))).sent = [0] := by decide
+
 /-- while the port stays full the message is not sent, however many rounds are evaluated: the
     hypothesis on the environment is needed -/
 example : (run Cfg.cur (run Cfg.cur demo (demoOps.take 20)) [.eval, .eval, .eval]).sent = [] := by decide
